@@ -3,7 +3,7 @@
 import json, glob, os, sys
 by = {}
 unc = []
-for d in sorted(glob.glob('/verif/selftest/mut/m*')):
+for d in sorted(glob.glob(sys.argv[1] if len(sys.argv) > 1 and sys.argv[1] != '-v' else '/verif/selftest/mut/m*')):
     if not os.path.exists(d + '/result.json'):
         continue
     info = json.load(open(d + '/info.json')); res = json.load(open(d + '/result.json'))
